@@ -329,6 +329,11 @@ class Batch:
                     self.findings.append((signatures([bad], feats, ps)[0], {"case": case, "passes": ps, "problems": [bad], "model_opt": opt, "brute_force_opt": so}))
             elif status == "infeasible":
                 self.findings.append((signatures(["optimum:model-infeasible"], feats, ps)[0], {"case": case, "passes": ps, "problems": ["optimum:model-infeasible"], "brute_force_opt": so}))
+            # pruning passes may never lose utility with respect to the unpruned model
+            if ps != 0 and not (ps & 4) and cid in base_opt and base_opt[cid][0] == "optimal":
+                if status != "optimal" or opt < base_opt[cid][1]:
+                    self.findings.append((signatures(["optimum:decreases-with-passes"], feats, ps)[0],
+                                          {"case": case, "passes": ps, "problems": ["optimum:decreases-with-passes"], "without": base_opt[cid][1], "with": opt}))
             # the same tree with and without passes
             # (only informative when the brute force was too large: otherwise both were compared with it above)
             if so is None and ps != 0 and cid in base_opt and base_opt[cid][0] == "optimal" and status == "optimal" and not (ps & 4):
@@ -407,7 +412,15 @@ def run(chk: common.Check):
         common.broken_obligation(chk, broken + [f"correspondence: {d['what']}" for d in b.disagreements[:3]], search)
 
 
+def _is_known(sig: str) -> bool:
+    import re
+
+    return any(re.search(e["match"], sig) for e in common.known_findings("C20"))
+
+
 def replay(path) -> int:
+    """Re-run one replay file against $ERDOS_REPO alone (C++ build + solver + oracle, no Lean).
+    Exit 1 iff a violation that is not a recorded known finding reproduces."""
     rep = json.loads(open(path).read())
     if "case" not in rep:
         print(f"replay {path}: no failing input was recorded (broken obligation: {rep.get('broken')})")
@@ -416,9 +429,8 @@ def replay(path) -> int:
     case = dict(rep["case"])
     case["passes"] = rep.get("passes", 0)
     feats = features(case)
-    b = Batch(None, use_lean=False)
     if rep.get("assignment") is not None:
-        r = cxx.run([("replay", case, [rep["assignment"]])])["replay"]
+        r = cxx.run([("replay", case, [rep["assignment"]])], watchdog=True)["replay"]
         if r["err"]:
             print("REPRODUCED compile error:", r["err"])
             return 1
@@ -427,12 +439,17 @@ def replay(path) -> int:
         else:
             res = r["results"][0]
             probs = [res["err"]] if res["err"] else oracle.check_result(case, res["root"], res["objective_value"])
-            if probs:
-                print(f"REPRODUCED {signatures(probs, feats, case['passes']) if not res['err'] else res['err']}")
+            sigs = [s for s in signatures(probs, feats, case["passes"]) if not _is_known(s)]
+            if sigs:
+                print(f"REPRODUCED {sigs}")
                 print(" placements:", json.dumps(res.get("root", {}).get("placements")))
                 print(" problems:", probs)
                 return 1
-    b.run(common.Rng(0, "replay"), [("replay", rep["case"])], "thorough", passes_list=(case["passes"],))
-    for sig, r in b.findings:
+    b = Batch(None, use_lean=False)
+    b.run(common.Rng(0, "replay"), [("replay", rep["case"])], "thorough", passes_list=tuple(sorted({0, case["passes"]})))
+    bad = [(sig, r) for sig, r in b.findings if not _is_known(sig)]
+    for sig, r in bad:
         print(f"REPRODUCED {sig}\n problems: {r['problems']}")
-    return 1 if b.findings else 0
+    if not bad:
+        print("not reproduced (only recorded known findings, if any)")
+    return 1 if bad else 0
